@@ -108,6 +108,14 @@ func (r *Run) violate(prop, rule, key, f string, a ...interface{}) {
 	r.logf("!! VIOLATION %s: %s", v.Sig(), v.Detail)
 }
 
+// taint: after a violation was reported about a grant, the ledger no longer matches the server for that grant;
+// it is excluded from further judgement so that one defect is reported once and does not cascade.
+func (r *Run) taint(g *Grant) {
+	if g != nil {
+		g.Unspec = true
+	}
+}
+
 func (r *Run) sanity(f string, a ...interface{}) {
 	s := fmt.Sprintf("step %d: ", r.Idx) + fmt.Sprintf(f, a...)
 	r.Sanity = append(r.Sanity, s)
@@ -471,6 +479,15 @@ func (r *Run) recordTokenResponse(res *Resp, g *Grant, gen int, grantKey string,
 		rt = r.L.AddCred(&Cred{Kind: "rt", Val: v, G: g, Gen: gen, Issued: now, Endpoint: "token", Delivered: true,
 			Life: r.overrideLife(cs, grantKey+":refresh_token", r.W.K.DocRTLife())})
 		r.secret(v, "refresh_token")
+		if rt.Life < 0 {
+			// "unlimited" on refresh leaves the session's earlier (finite) expiry in place: whether the new token is
+			// unlimited or inherits that expiry is not pinned down => no positive expectation
+			for _, o := range g.Creds {
+				if o.Kind == "rt" && o != rt && o.Life >= 0 {
+					rt.Life = 0
+				}
+			}
+		}
 	}
 	if v := res.Str("id_token"); v != "" {
 		id = r.L.AddCred(&Cred{Kind: "id", Val: v, G: g, Gen: gen, Issued: now, Endpoint: "token", Delivered: true,
@@ -524,12 +541,14 @@ func (r *Run) probeCred(c *Cred, when string) {
 		for _, p := range tags {
 			r.violate(p, "honoured-but-must-not", c.Kind, "%s (%s, %s: %v) is reported active %s", c.Name(), c.G.Origin, c.State, c.Why, when)
 		}
+		r.taint(c.G)
 	}
 	if exp == Must && !active {
 		tags := appendUniq(append([]string{}, r.Tags...), "C09")
 		for _, p := range tags {
 			r.violate(p, "refused-but-must", c.Kind, "%s (%s, gen %d, age %s of %s) is reported inactive %s although nothing invalidated it", c.Name(), c.G.Origin, c.Gen, r.now().Sub(c.Issued), c.Life, when)
 		}
+		r.taint(c.G)
 	}
 	if exp == Must && active && ar != nil {
 		r.checkIntrospected(c, ar)
@@ -562,6 +581,7 @@ func (r *Run) checkIntrospected(c *Cred, ar fosite.AccessRequester) {
 		for _, p := range tags {
 			r.violate(p, "grant-changed", c.Kind, "%s of grant %d (%s): %s", c.Name(), g.N, g.Origin, bad)
 		}
+		r.taint(g)
 	}
 }
 
